@@ -340,3 +340,74 @@ func VH_C09_Recursive() {
 	symAssert(err == nil, "renders")
 	symAssert(out == vhC09RefTree(roots), "recursive-loops-keep-their-own-counters")
 }
+
+// ---- C09.looprefs: loop.* means the enclosing loop wherever it is written ----------------------------
+
+// VH_C09_LoopRefs: the outer loop's counters are read in exactly one place of its body, and that place
+// is inside another construct: the else branch of an inner loop over nothing, the sequence expression of
+// an inner loop, an if condition, a set, a macro argument, a filter argument, a hash literal, an included
+// template. n outer elements (0..3). The value read is the outer loop's.
+func VH_C09_LoopRefs() {
+	n := symChoice(4)
+	xs := make([]interface{}, n)
+	for i := range xs {
+		xs[i] = "x" + strconv.Itoa(i)
+	}
+	tpls := []string{
+		"{% for x in xs %}{% for y in [] %}y{% else %}({{ loop.index }}/{{ loop.length }}{{ loop.last }}){% endfor %}{% endfor %}",
+		"{% for x in xs %}{% for y in range(1, loop.index) %}*{% endfor %};{% endfor %}",
+		"{% for x in xs %}{% if loop.first %}F{% elseif loop.last %}L{% else %}M{% endif %}{% endfor %}",
+		"{% for x in xs %}{% set i = loop.index0 %}{% for y in [1] %}{{ i }}{% endfor %}{% endfor %}",
+		"{% macro show(a, b) %}<{{ a }}|{{ b }}>{% endmacro %}{% for x in xs %}{{ _self.show(loop.index, loop.revindex) }}{% endfor %}",
+		"{% for x in xs %}{{ 'abc'|slice(0, loop.index) }};{% endfor %}",
+		"{% for x in xs %}{{ {'i': loop.index, 'n': loop.length}['i'] }}{% endfor %}",
+		"{% for x in xs %}{% include 'showloop' %}{% endfor %}",
+		"{% for x in xs %}{% for y in [] %}{% else %}{% for z in [] %}{% else %}[{{ loop.index }}]{% endfor %}{% endfor %}{% endfor %}",
+		"{% for x in xs %}{% for y in [1, 2] %}{% if false %}{{ loop.index }}{% endif %}{% endfor %}({{ loop.index }}){% endfor %}",
+	}
+	t := symChoice(len(tpls))
+	symTag("tpl:" + tpls[t])
+	e := New()
+	e.RegisterString("showloop", "{{ loop.index }}of{{ loop.length }},")
+	if e.RegisterString("t", tpls[t]) != nil {
+		symAssert(false, "template-parses")
+		return
+	}
+	out, err := e.Render("t", map[string]interface{}{"xs": xs})
+	symCover("rendered")
+	symAssert(err == nil, "no-error")
+	want := ""
+	for i := 0; i < n; i++ {
+		one, rev := strconv.Itoa(i+1), strconv.Itoa(n-i)
+		switch t {
+		case 0:
+			want += "(" + one + "/" + strconv.Itoa(n) + vhB(i == n-1) + ")"
+		case 1:
+			want += vhRepeatStr("*", i+1) + ";"
+		case 2:
+			switch {
+			case i == 0:
+				want += "F"
+			case i == n-1:
+				want += "L"
+			default:
+				want += "M"
+			}
+		case 3:
+			want += strconv.Itoa(i)
+		case 4:
+			want += "<" + one + "|" + rev + ">"
+		case 5:
+			want += "abc"[:i+1] + ";"
+		case 6:
+			want += one
+		case 7:
+			want += one + "of" + strconv.Itoa(n) + ","
+		case 8:
+			want += "[" + one + "]"
+		case 9:
+			want += "(" + one + ")"
+		}
+	}
+	symAssert(out == want, "loop-refers-to-the-enclosing-loop")
+}
